@@ -159,7 +159,8 @@ class C12Prop(EnumProp):
                 have = [r_ for r_ in (arch_rows or []) if M.out_dir_rel(r_[0], r_[1]) in snap["tree"]
                         and M.out_dir_rel(r_[0], r_[1]) not in before["tree"]]
                 copied[k] = bool(have) and inv.killed
-                return oracles.restore_violations(before, snap, inv.code, inv.killed, arch_rows)
+                return oracles.restore_violations(before, snap, inv.code, inv.killed, arch_rows,
+                                                  arch_path=getattr(st, "archive_orig_path", None) or getattr(st, "archive_path", None))
 
             recs, total, exh = E.kill_enumeration(world, op, work, enum["budget"], r, evaluate)
             for rec in recs:
